@@ -167,7 +167,8 @@ main (int argc, char **argv)
 	uint64_t seed;
 	img_t s, m, d;
 	pixman_image_t *src, *mask = NULL;
-	int simple;
+	int simple, nk;
+	pixman_fixed_t kparams[16];
 	for (i = 0; i < n; i++)
 	    if (fscanf (in, "%lld", &f[i]) != 1) return 3;
 	pair = (int)f[k++]; variant = (int)f[k++]; cmp = (int)f[k++]; op = (int)f[k++];
@@ -182,6 +183,27 @@ main (int argc, char **argv)
 				    * alpha-less destination to be opaque) */
 	quant &= 1;
 	memset (&s, 0, sizeof s); memset (&m, 0, sizeof m);
+	nk = 0;
+	if (sfilt >= 50)
+	{
+	    /* 50..52: 3x3 convolution, 60..62: separable 1x1 / 2x1 (one phase); last digit: kernel gain 1/2, 1, 3/2 */
+	    int g = (sfilt % 10 == 0) ? 32768 : (sfilt % 10 == 1 ? 65536 : 98304);
+	    if (sfilt < 60)
+	    {
+		kparams[0] = pixman_int_to_fixed (3); kparams[1] = pixman_int_to_fixed (3);
+		for (i = 0; i < 9; i++) kparams[2 + i] = 0;
+		kparams[2 + 4] = g - 2 * 4096; kparams[2 + 1] = 4096; kparams[2 + 7] = 4096;
+		nk = 11;
+	    }
+	    else
+	    {
+		kparams[0] = pixman_int_to_fixed (2); kparams[1] = pixman_int_to_fixed (1);
+		kparams[2] = 0; kparams[3] = 0;
+		kparams[4] = g / 2; kparams[5] = g - g / 2;     /* x coefficients */
+		kparams[6] = 65536;                              /* y coefficient */
+		nk = 7;
+	    }
+	}
 
 	/* the scripted request, echoed for the specification */
 	simple = (t[1] == 0 && t[2] == 0 && t[0] == 65536 && t[3] == 65536 && (t[4] & 0xffff) == 0 && (t[5] & 0xffff) == 0 &&
@@ -189,7 +211,8 @@ main (int argc, char **argv)
 	vt_begin ("Req");
 	vt_int ("pair", pair); vt_int ("variant", variant); vt_int ("cmp", cmp); vt_int ("op", op);
 	vt_int ("skind", skind); vt_int ("s_abits", skind == 1 ? 0 : PIXMAN_FORMAT_A (sfmt)); vt_int ("sw", sw); vt_int ("sh", sh);
-	vt_int ("srep", srep); vt_bool ("simple", simple); vt_int ("tx", t[4] >> 16); vt_int ("ty", t[5] >> 16);
+	vt_int ("srep", srep); vt_bool ("simple", simple);
+	vt_int ("sfilt", sfilt); vt_ints ("kernel", (const int *)kparams, nk); vt_int ("tx", t[4] >> 16); vt_int ("ty", t[5] >> 16);
 	vt_int ("mkind", mkind); vt_int ("d_abits", PIXMAN_FORMAT_A (dfmt)); vt_int ("dw", dw); vt_int ("dh", dh);
 	vt_int ("sx", sx); vt_int ("sy", sy); vt_int ("dx", dx); vt_int ("dy", dy); vt_int ("w", w); vt_int ("h", h);
 	vt_end ();
@@ -210,7 +233,11 @@ main (int argc, char **argv)
 	    make_image (&s, sfmt, sw, sh, seed, quant, skind == 2 || skind == 3, skind == 4);
 	    src = s.img;
 	    pixman_image_set_repeat (src, (pixman_repeat_t)srep);
-	    pixman_image_set_filter (src, (pixman_filter_t)sfilt, NULL, 0);
+	    if (sfilt >= 50)
+		pixman_image_set_filter (src, sfilt < 60 ? PIXMAN_FILTER_CONVOLUTION : PIXMAN_FILTER_SEPARABLE_CONVOLUTION,
+					 kparams, nk);
+	    else
+		pixman_image_set_filter (src, (pixman_filter_t)sfilt, NULL, 0);
 	    if (!(t[0] == 65536 && t[1] == 0 && t[2] == 0 && t[3] == 65536 && t[4] == 0 && t[5] == 0))
 	    {
 		pixman_transform_t tr;
